@@ -64,6 +64,39 @@ def shadowing_cases(rng, n):
         yield c
 
 
+OWN_DEFAULTS = [
+    (["x"], {"lower": 0}, "lower <= x", {"x": -5}),
+    (["x"], {"lower": 0}, "x >= lower and len(str(lower)) > 0", {"x": -5}),
+    (["x"], {"lo": 1, "hi": 3}, "lo <= x <= hi", {"x": 7}),
+    (["xs"], {"limit": 1}, "len(xs) <= limit or xs[limit] is None", {"xs": [1, 2, 3]}),
+    (["xs"], {"k": 2}, "all(e > k for e in xs)", {"xs": [3, 1]}),
+    (["s"], {"sep": "-"}, "sep in s", {"s": "ab"}),
+    (["x"], {"y": 3}, "x > y", {"x": 1}),
+]
+
+
+def own_default_cases(rng, n):
+    for params, defaults, expr, env in OWN_DEFAULTS:
+        for layout in ("oneline", "multiline"):
+            for kind in ("require", "ensure"):
+                yield {"dom": "expr", "expr": expr, "env": dict(env), "params": list(params), "cond_defaults": dict(defaults),
+                       "layout": layout, "kind": kind}
+    made = 0
+    for _ in range(n * 6):
+        if made >= n:
+            break
+        moved = rng.sample(["y", "n", "s"], rng.randint(1, 2))
+        params = [p for p in ["x", "y", "xs", "s", "o", "n"] if p not in moved]
+        c = exprprop.make_case(rng, depth=2, features=exprprop.MODEL_FEATURES, params=params)
+        if not c or not any(m in exprprop.used_names(c["expr"]) for m in moved):
+            continue
+        if not all(isinstance(c["env"].get(m), (int, str, type(None))) for m in moved):
+            continue
+        c["cond_defaults"] = dict((m, c["env"][m]) for m in moved)
+        made += 1
+        yield c
+
+
 def cases(tier, rng):
     thorough = tier == "thorough"
     for c in exprprop.special_cases(rng):
@@ -97,6 +130,9 @@ def cases(tier, rng):
     # a parameter of the FUNCTION which the condition does not take is named like a global / closure variable the condition reads
     for c in shadowing_cases(rng, 600 if thorough else 150):
         yield "function-parameter-named-like-a-global", c
+    # parameters of the condition's OWN with default values (`lambda x, lower=0: lower <= x`): the call never supplies them
+    for c in own_default_cases(rng, 500 if thorough else 120):
+        yield "condition-parameters-with-defaults", c
     # the closure variable is re-bound between two violations of the same contract
     for expr in ("x > cl + 100", "cl < 0 or x > 100", "len(xs) > abs(cl) + 50", "x > 100 and cl > 0", "[cl, x] == []",
                  "all(e > cl + 100 for e in [x, y])"):
